@@ -585,3 +585,17 @@ Proof.
   exists [TOpen "neuroml"; TOpen "cell"; TClose "cell"; TOpen "network"; TClose "network"; TClose "neuroml"], 3.
   split; [reflexivity|]. split; [simpl; lia|]. split; reflexivity.
 Qed.
+
+(* ---------------------------------------------------------------- refusal table *)
+Lemma strs_eqb_eq : forall a b, strs_eqb a b = true -> a = b.
+Proof.
+  induction a as [|x a IH]; destruct b as [|y b]; simpl; intros H; try discriminate; [reflexivity|].
+  apply andb_true_iff in H as [H1 H2]. apply String.eqb_eq in H1. rewrite H1, (IH _ H2). reflexivity.
+Qed.
+
+Theorem refusals_eqb_eq : forall a b, refusals_eqb a b = true -> a = b.
+Proof.
+  induction a as [|[c g] a IH]; destruct b as [|[c' g'] b]; simpl; intros H; try discriminate; [reflexivity|].
+  apply andb_true_iff in H as [H H3]. apply andb_true_iff in H as [H1 H2].
+  apply String.eqb_eq in H1. apply strs_eqb_eq in H2. rewrite H1, H2, (IH _ H3). reflexivity.
+Qed.
